@@ -275,15 +275,6 @@ def regions(u: B.Universe, value, factory="dict"):
             md = f.get("metadata", {})
             items = x["list"] if isinstance(x, dict) and "list" in x else [x]
             bt = G._base(f["type"])
-            if md.get("type") == "Elements":
-                order = [ch["type"] for ch in md["choices"]]
-                for it in items:
-                    if isinstance(it, dict) and "str" in it and "int" in order and "str" in order and order.index("int") < order.index("str"):
-                        try:
-                            int(it["str"])
-                            found.add("C04-compound-str-as-int")
-                        except ValueError:
-                            pass
             for it in items:
                 if not isinstance(it, dict):
                     continue
